@@ -115,7 +115,7 @@ def run(rep):
         t = E.find_templates(s[3], lambda t: 'to_owned' in E.tmpl_text(t))[0]
         ttxt = E.tmpl_text(t)
         key = hole_after_seq(t, '(') if label == 'required' else hole_after_seq(t, 'entries . insert (')
-        rep.check(key == key_of(o), 'C12.key', f'{label}-key', where,
+        rep.check(key is not None and E.decision_list(key) == E.decision_list(key_of(o)), 'C12.key', f'{label}-key', where,
                   f'the {label} entry key is {E.show(key, maxdepth=7) if key else None}; expected `@id` as decimal string when present, else the WGSL name unchanged', ok_detail='key = id.to_string() else name')
         val = [it for it in t[2] if it[0] == 'hole'][-1][2] if label == 'required' else [it for it in t[2] if it[0] == 'hole'][-1][2]
         tyinner = ('f', ('idx', ('f', modP, 'types'), ('f', o, 'ty')), 'inner')
